@@ -430,12 +430,11 @@ def _store_accessor_lemma():
                 elif root(n.func.value) == "self" and n.func.attr in MUTATORS:
                     out.append("%s:%d" % (mname, n.lineno))
         return out
-    goals = []
+    w = []
     for acc in ("get_graph", "csr", "version_etag"):
-        w = writes_self(acc, set())
-        g = z3.BoolVal(True) if not w else z3.And(z3.BoolVal(False), z3.Bool("writes_self_at_" + "_".join(x.replace(":", "_line") for x in w)))
-        goals.append(("InMemoryGraphStore.%s-is-read-only" % acc, [], g))
-    return goals
+        w.extend("%s_via_%s" % (acc, x.replace(":", "_line")) for x in writes_self(acc, set()))
+    g = z3.BoolVal(True) if not w else z3.And(z3.BoolVal(False), z3.Bool("writes_self__" + "__".join(w)))
+    return [("InMemoryGraphStore-accessors-used-by-t1-are-read-only", [], g)]
 
 
 R.lemma("t1-frame-store-accessors", "C12", _store_accessor_lemma)
